@@ -30,17 +30,19 @@ HOOK_SETS = [
 ]
 
 
-def _build(ex, N, G):
+def _build(ex, N, G, profiles=(0, 1, 2, 3)):
     from jade.extensions.generic_command import GenericCommandConfiguration, GenericCommandParameters
 
     n = 1 + ex.choice("njobs", N)
     g = 1 + ex.choice("ngroups", G)
     groups = [slurm_group("grp%d" % k, account="acct%d" % k, per_node_batch_size=[500, 2][k % 2], max_nodes=3) for k in range(g)]
-    gp = ex.choice("group_profile", 3)
+    gp = profiles[ex.choice("group_profile", len(profiles))]
     for k, grp in enumerate(groups):  # optional submitter parameters: defaults / explicitly null / explicitly set (last group differs)
         sp = grp["submitter_params"]
         if gp == 1:
             sp.update(resource_monitor_interval=None, num_parallel_processes_per_node=None, singularity_params=None)
+        elif gp == 3:  # monitor interval below the poll interval: submit-jobs lowers the poll interval of every group alike
+            sp.update(resource_monitor_interval=3, poll_interval=10, resource_monitor_type="aggregation")
         elif gp == 2:
             sp.update(resource_monitor_interval=7, num_parallel_processes_per_node=2 + k, try_add_blocked_jobs=False, verbose=True,
                       node_setup_script="setup.sh" if k == g - 1 else None)
@@ -117,7 +119,7 @@ def k_config(N=2, G=2):
 
     def _run(ex, w):
         w.job_command_handler = lambda w_, argv, env: (w_.record("hook", argv=argv, rc=0, env={}) and 0, "", "")
-        config, kw, n, g = _build(ex, N, G)
+        config, kw, n, g = _build(ex, N, G, profiles=(0, 3))
         path = os.path.join(w.root, "config.json")
         config.dump(path)
         # ---- acceptance / rejection through the real `jade submit-jobs`
@@ -141,8 +143,8 @@ def k_config(N=2, G=2):
             data["submission_groups"][1]["submitter_params"]["max_nodes"] = 7
             label = "max_nodes differs between groups"
         elif inv == 5:
-            if g < 2:
-                return
+            if g < 2 or data["submission_groups"][0]["submitter_params"].get("resource_monitor_interval") == 3:
+                return  # (with a monitor interval below it, submit-jobs lowers every group's poll interval: not an invalid input)
             data["submission_groups"][1]["submitter_params"]["poll_interval"] = 33
             label = "poll_interval differs between groups"
         elif inv == 6:
@@ -215,6 +217,44 @@ def k_runtime(N=2, G=2):
         ex.check(want == rejected if not isinstance(want, bool) else want == rejected,
                  "C17: runtime check does not reject exactly the configurations with an estimate above the walltime",
                  rejected=rejected)
+        ex.reached()
+
+    return harness
+
+
+def k_walltime():
+    """SubmitterParams.get_wall_time / _to_timedelta on walltime strings H:MM:SS (hours with 1-3 digits, zero padded or not),
+    and the consequence for check_job_runtimes: an estimate is rejected iff it exceeds that walltime."""
+    bootstrap()
+    from jade.exceptions import InvalidConfiguration
+    from jade.models import SubmissionGroup
+    from .common import make_config
+
+    HOURS = [0, 1, 4, 9, 10, 12, 19, 23, 24, 48, 100, 240]
+    MINS = [0, 5, 30, 59]
+    SECS = [0, 1, 59]
+
+    def harness(ex):
+        h = HOURS[ex.choice("hours", len(HOURS))]
+        m = MINS[ex.choice("minutes", len(MINS))]
+        sec = SECS[ex.choice("seconds", len(SECS))]
+        ex.assume(h + m + sec > 0)
+        text = ("%02d:%02d:%02d" if ex.flag("zero_padded_hours") else "%d:%02d:%02d") % (h, m, sec)
+        grp = SubmissionGroup(**slurm_group("g0", walltime=text))
+        want = h * 3600 + m * 60 + sec
+        got = grp.submitter_params.get_wall_time().total_seconds()
+        ex.check(got == want, "C07/C17: walltime string parsed to another duration", walltime=text, got=got, want=want)
+        # estimates just below / at / just above the walltime (whole minutes)
+        wm = want // 60
+        for est, ok in ((wm, True), (wm + 1, False)) + (((wm - 1, True),) if wm >= 1 else ()):
+            config = make_config([dict(name="j0", submission_group="g0", estimated_run_minutes=est)], [slurm_group("g0", walltime=text)])
+            try:
+                config.check_job_runtimes()
+                accepted = True
+            except InvalidConfiguration:
+                accepted = False
+            want_ok = est * 60 <= want
+            ex.check(accepted == want_ok, "C17: estimate compared with a wrong walltime", walltime=text, estimate=est, accepted=accepted)
         ex.reached()
 
     return harness
